@@ -1167,6 +1167,11 @@ def honest_family(run, replay=None):
         # handshakes whose first encrypted request follows M4 at once
         nimm = 600 if thorough else 200
         runs += [[dict(code='right', mode='immediate', nreq=1)] for _ in range(nimm)]
+        # pair-verify again inside the session (V3V4 from a session, HonestRun.tla), and keep-alives during the hand-over
+        # (Unsolicited): the switch is a race of a few microseconds, many runs
+        nrv = 300 if thorough else 60
+        runs += [[dict(code='right', mode='patient', nreq=1, rv=3 + i % 3, ka=False)] for i in range(nrv)]
+        runs += [[dict(code='right', mode='patient', nreq=2, rv=i % 3, ka=True)] for i in range(nrv)]
         return [('run', runs)], dict(runs=n + nimm, immediate_first_requests=nimm + n // 9, inputs='sampled by seed: setup code, controller identifier (1..64 bytes UTF-8 incl. the 36-character form), Ed25519 / X25519 keys, accessory identity, pre-existing pairings, request sizes 1 frame .. ~30 frames, attribute databases of 1 and 61 accessories')
 
     def sanity(lines, behs):
@@ -1184,7 +1189,7 @@ def honest_family(run, replay=None):
         if rule.startswith('FirstRequest'):
             return rule
         return '%s/%s' % (rule, line.get('name') if line.get('name') != 'fail' else line.get('why', '')[:40])
-    rules = {r: 'C04' for r in ('Structure', 'ItemsOnce', 'Crypto', 'WrongCode', 'Stored', 'V4Plain', 'Talk', 'Setup', 'FirstRequest:immediate', 'FirstRequest:pipelined')}
+    rules = {r: 'C04' for r in ('Structure', 'ItemsOnce', 'Crypto', 'WrongCode', 'Stored', 'V4Plain', 'SwitchAtomic', 'Talk', 'Setup', 'FirstRequest:immediate', 'FirstRequest:pipelined')}
     return generic_family(run, replay, hcv='honest', trace_mod='HonestRunTrace', gen=gen, rules=rules, level='model_checking',
                           assumptions=['the reference controller in harness/ref is written from the HAP specification and shares no code with hc (SRP-6a over math/big, HKDF over crypto/hmac, x/crypto AEAD, own TLV8 and framing); RFC 8439 / RFC 5869 primitives come from the Go standard library and x/crypto',
                                        'SRP padding ambiguity: when A, B or the premaster secret has a leading zero byte the exchange is redrawn (1 run in about 128), as the HAP specification does not say whether these are zero-padded inside the proofs',
